@@ -308,6 +308,9 @@ class BaseSetup:
         <https://docs.scipy.org/doc/scipy/reference/generated/scipy.signal.detrend.html>`_.
         """
         axis = kwargs.pop("axis", 0)
+        if kwargs.get("overwrite_data"):
+            # scipy then works in place: never let it write into the array the user passed in
+            data = data.copy()
         return detrend(data, axis=axis, **kwargs)
 
     # method to detrend data
